@@ -180,8 +180,9 @@ Proof. vm_compute. repeat split. Qed.
    ColLowCardinality to their element with Elem() (the last two since the repair made for this extension: they had no Infer
    method and a DateTime64 / Enum below them silently kept its old precision / definitions); ColMap to keys and values with
    the two top-level arguments of Elem() (splitTypeArgs, since the second repair: the string used to be cut at its first
-   comma); ColTuple and ColNamed hand the WHOLE string on (not repaired: a tuple with an adopting member rejects its own
-   type); ColAuto hands a compatible type to the column it holds.
+   comma); ColTuple to element i with argument i of Elem(), which must have as many top-level arguments as the tuple has
+   elements, and ColNamed with what follows "<Name> " (since the C18y repair: both used to hand the WHOLE string on, so that
+   a tuple with an adopting member rejected its own type); ColAuto hands a compatible type to the column it holds.
 
    [skel t] (proofs/ResultsProofs2.v) is the static shape of a target: the type tree with everything Infer can replace
    erased - zone, precision and scale of the DateTime / DateTime64 / Interval leaves and name, width and definitions of
@@ -208,6 +209,42 @@ Theorem infer_forwarded_by_map : forall zone tl k v s,
   end.
 Proof. exact infer_st_map. Qed.
 Print Assumptions infer_forwarded_by_map.
+
+(* Tuple forwards to its elements in order, element i with the i-th top-level argument of its element string, trimmed
+   ([tup_infer]: the loop stops at the first failure and leaves the later elements untouched); when the number of
+   arguments is not the number of elements the type cannot be adopted and nothing is touched; a tuple without an
+   Inferable element ignores the string altogether (generalises the statement of the quirk this file carried before the
+   repair: "every element gets the whole string") *)
+Theorem infer_forwarded_by_tuple : forall zone tl ts s,
+  infer_st zone tl (TTuple ts) s =
+  if existsb inferable_ty ts then
+    if negb (length (split_type_args (elem s)) =? length ts)%nat then (TTuple ts, IErr)
+    else let '(ts', o) := tup_infer zone tl ts (split_type_args (elem s)) in (TTuple ts', o)
+  else (TTuple ts, IOk).
+Proof. exact infer_st_tuple. Qed.
+Print Assumptions infer_forwarded_by_tuple.
+
+Theorem tuple_loop_unfolds : forall zone tl t0 r a ar,
+  tup_infer zone tl (t0 :: r) (a :: ar) =
+  let '(t0', o) := opt_infer zone tl t0 (trim_space a) in
+  match o with
+  | IOk => let '(r', o') := tup_infer zone tl r ar in (t0' :: r', o')
+  | _ => (t0' :: r, o)
+  end.
+Proof. reflexivity. Qed.
+Print Assumptions tuple_loop_unfolds.
+
+(* a named element takes what follows its own name and a blank; any other string is rejected *)
+Theorem infer_forwarded_by_named : forall zone tl n d s,
+  infer_st zone tl (TNamed n d) s =
+  if inferable_ty d then
+    match cut_prefix (n ++ [32]) s with
+    | Some e => let '(d', o) := infer_st zone tl d e in (TNamed n d', o)
+    | None => (TNamed n d, IErr)
+    end
+  else (TNamed n d, IOk).
+Proof. exact infer_st_named. Qed.
+Print Assumptions infer_forwarded_by_named.
 
 (* Infer never changes the shape, whether it succeeds or fails half way *)
 Theorem infer_keeps_shape : forall zone tl t s, skel (fst (infer_st zone tl t s)) = skel t.
@@ -348,4 +385,22 @@ Example c18x_failed_then_ok :
   ex2_run Safe =
     Some (Some (BFail 1 FDecode EEof, [("a", "String", Some (DBytes [s2b "p"; s2b "q"])); ("b", "UInt32", Some (DFix []))]),
           Some (BOk [], [("a", "String", Some (DBytes [s2b "p"; s2b "q"])); ("b", "UInt32", Some (DFix [7; 258]))])).
+Proof. vm_compute. repeat split. Qed.
+
+(* non-vacuity of the C18y repair: a tuple target built with other parameters adopts element by element - a named
+   element with its name stripped, a nested tuple, commas inside the Enum's and the DateTime64's own parentheses -; a
+   type with another number of elements, or another element name, is rejected and leaves the target as it was; a tuple
+   without an adopting element ignores the string *)
+Example c18y_tuple_adoption :
+  let dt64 (p : string) := TFix (s2b p) 8 in
+  let blank := TTuple [TStr; dt64 "DateTime64(9)"; TNamed (s2b "e") (TEnum [] 2 []); TTuple [TEnum [] 2 []; dt64 "DateTime64"]] in
+  let s1 := s2b "Tuple(String, DateTime64(3, 'UTC'), e Enum8('a' = 1, 'b' = 2), Tuple(Enum16('z' = 300), DateTime64(6)))" in
+  infer_st ex_zone (fun x => x) blank s1 =
+    (TTuple [TStr; dt64 "DateTime64(3, 'UTC')"; TNamed (s2b "e") (ex_enum [("a", 1%Z); ("b", 2%Z)] "Enum8('a' = 1, 'b' = 2)");
+             TTuple [TEnum (s2b "Enum16('z' = 300)") 2 [(s2b "z", 300%Z)]; dt64 "DateTime64(6)"]], IOk) /\
+  type_str (fst (infer_st ex_zone (fun x => x) blank s1)) = s1 /\
+  infer_st ex_zone (fun x => x) blank (s2b "Tuple(String, DateTime64(3))") = (blank, IErr) /\
+  infer_st ex_zone (fun x => x) blank (s2b "Tuple(String, DateTime64(3), f Enum8('a' = 1), Tuple(Enum16('z' = 300), DateTime64(6)))")
+    = (TTuple [TStr; dt64 "DateTime64(3)"; TNamed (s2b "e") (TEnum [] 2 []); TTuple [TEnum [] 2 []; dt64 "DateTime64"]], IErr) /\
+  infer_st ex_zone (fun x => x) (TTuple [TStr; TFix (s2b "UInt8") 1]) (s2b "anything") = (TTuple [TStr; TFix (s2b "UInt8") 1], IOk).
 Proof. vm_compute. repeat split. Qed.
